@@ -162,6 +162,10 @@ class Interp:
         self.unknown_mem = []     # accesses through tracked pointers with unknown offset
         self.notes = []
         self.hooks = {}           # callee name -> f(interp, call node, args) -> value
+        self.align = None         # {buffer base: address residue}: makes (uintptr_t)ptr concrete modulo a page
+        self.heap0 = None         # {(base, byte offset): value}: initial contents of tracked objects whose scalar
+        self.heap = None          # fields are state (not data); stores update it, loads read it (per explored path)
+        self.ptr_to_int = False   # a pointer was converted to an integer while no residue was given
         self.events = []          # free-form events recorded by hooks (per outcome)
 
     # ----- public
@@ -182,6 +186,7 @@ class Interp:
             self.new_forks = []
             self.acc = []
             self.events = []
+            self.heap = dict(self.heap0) if self.heap0 is not None else None
             env = {}
             for p, v in zip(self.fn.params, args):
                 env[p["d"]] = v
@@ -414,6 +419,8 @@ class Interp:
         p, size = self.addr(n, env, fn, depth)
         if p is not None:
             self.access(p, size, "w", node)
+            if self.heap is not None and isinstance(p.off, int):
+                self.heap[(p.base, p.off)] = wrap(val, n.t) if isinstance(val, int) else val
 
     def addr(self, n, env, fn, depth):
         """Address of an lvalue expression as (Ptr or None, size)."""
@@ -484,6 +491,12 @@ class Interp:
                 if p_ is not None:
                     return Ptr(p_.base, p_.off, pointee_size(e.t) or 1)
                 return U
+            if isinstance(v, Ptr) and ck == "PointerToIntegral":
+                # the numeric address of a buffer: known only modulo the alignment class under analysis
+                if self.align is not None and v.base in self.align:
+                    return (1 << 40) + self.align[v.base] + v.off
+                self.ptr_to_int = True
+                return U
             if isinstance(v, Ptr):
                 ps = pointee_size(e.t)
                 if ps is not None and ck in ("BitCast", "NoOp", "CPointerToObjCPointerCast") or (ps is not None and k == "CStyleCastExpr"):
@@ -542,6 +555,8 @@ class Interp:
             p, size = self.addr(n, env, fn, depth)
             if p is not None:
                 self.access(p, size, "r", lnode)
+                if self.heap is not None and isinstance(p.off, int) and (p.base, p.off) in self.heap:
+                    return self.heap[(p.base, p.off)]
                 mem = getattr(self, "memory", None)
                 if mem is not None and isinstance(p.off, int):
                     v2 = mem(p.base, p.off, size)
@@ -556,6 +571,8 @@ class Interp:
             tgt = e.c[0].strip()
             cur = self.ev(tgt, env, fn, depth)
             old = self.rv(cur, env)
+            if isinstance(cur, tuple) and cur and cur[0] == "MEM":
+                old = self.heap_value(tgt, env, fn, depth)
             delta = 1 if op == "++" else -1
             if isinstance(old, Ptr):
                 new = Ptr(old.base, old.off + delta * (old.esz or 1) if isinstance(old.off, int) else U, old.esz)
@@ -634,9 +651,10 @@ class Interp:
             self.lval_set(e.c[0], v, env, fn, depth)
             return v
         if e.k == "CompoundAssignOperator":
-            cur = self.rv(self.ev(e.c[0].strip(), env, fn, depth), env)
-            if isinstance(cur, tuple) and cur and cur[0] == "MEM":
-                cur = U
+            cur0 = self.ev(e.c[0].strip(), env, fn, depth)
+            cur = self.rv(cur0, env)
+            if isinstance(cur0, tuple) and cur0 and cur0[0] == "MEM":
+                cur = self.heap_value(e.c[0].strip(), env, fn, depth)
             r = self.rv(self.ev(e.c[1], env, fn, depth), env)
             v = self.arith(op[:-1], cur, r, e.c[0].t, e)
             self.lval_set(e.c[0], v, env, fn, depth)
@@ -644,6 +662,15 @@ class Interp:
         a = self.rv(self.ev(e.c[0], env, fn, depth), env)
         b = self.rv(self.ev(e.c[1], env, fn, depth), env)
         return self.arith(op, a, b, e.t, e)
+
+    def heap_value(self, lnode, env, fn, depth):
+        """Current value of a memory lvalue when object state is tracked (self.heap), else Unknown."""
+        if self.heap is None:
+            return U
+        p, size = self.addr(lnode, env, fn, depth)
+        if p is not None and isinstance(p.off, int) and (p.base, p.off) in self.heap:
+            return self.heap[(p.base, p.off)]
+        return U
 
     def ev_lhs_effects(self, lhs, env, fn, depth):
         pass
